@@ -86,6 +86,8 @@ def header_post(_old_fp, result, _engine):
 def code_offset_ok(fp, _engine):
     """the code object is read from the byte right after the header"""
     cfg = _engine.entry_cfg
+    if cfg.get("_escape_only"):
+        return True          # magics outside C06's table: only exception escape is claimed (C11)
     fam = H.family(cfg["_version"])
     data = fp.data
     want = 8 if fam == "ts" else (12 if fam == "ts_size" else 16)
@@ -97,6 +99,8 @@ def code_offset_ok(fp, _engine):
 
 def bytes_offset_ok(bytecode, _engine):
     """marshal.loads(fp.read()) on the fast path: the bytes handed over start right after the header"""
+    if _engine.entry_cfg.get("_escape_only"):
+        return True
     if getattr(_engine, "native", False):
         fam = H.family(_engine.entry_cfg["_version"])
         want = 8 if fam == "ts" else (12 if fam == "ts_size" else 16)
@@ -138,5 +142,60 @@ EXT_MARSHAL_LOADS = Contract("marshal:loads", requires=lambda bytecode, _engine:
 EXT_MARSHAL_LOADS.external_args = ["bytecode"]
 import types as _types
 EXT_MARSHAL_LOADS.result_pytype = _types.CodeType
-ALL_CONTRACTS = CONTRACTS + [EXT_LOAD_CODE, EXT_MARSH_LOAD, EXT_MARSHAL_LOADS]
+EXT_DROPBOX = Contract("xdis.dropbox.decrypt25:fix_dropbox_pyc", requires=lambda fp: fp.pos == 0, note="external: result unmodelled")
+EXT_DROPBOX.external_args = ["fp", "fixed_pyc"]
+# C11: whatever reads the code object may fail with any exception (corrupt input): the header reader must turn it
+# into ImportError.  The fork "the external callee raised an exception of unknown class" is explored at every call.
+for _e in (EXT_LOAD_CODE, EXT_MARSH_LOAD, EXT_MARSHAL_LOADS, EXT_DROPBOX):
+    _e.may_raise = True
+
+
+def escape_configs():
+    out = dict(header_configs())
+    base = {"filename": "x.pyc", "code_objects": None, "fast_load": False, "get_code": True, "_pypy": False}
+    for label, mi in (("dropbox/62135", 62135), ("dropbox-hacked/62215", 62215), ("unknown-magic/12345", 12345), ("interim/3010", 3010),
+                      ("interim/62071", 62071), ("unknown-magic/0", 0), ("unknown-magic/65535", 65535)):
+        try:
+            from xdis.magics import magic_int2tuple
+            ver = tuple(magic_int2tuple(mi)[:2])
+        except Exception:
+            ver = None
+        out[label] = dict(base, _magic=mi, _version=ver, _refused=True)
+    # every other magic word xdis's own tables know (interim releases, Jython, Graal, PyPy, ...): exception escape only
+    try:
+        from xdis.magics import magicint2version
+        have = set(v["_magic"] for v in out.values())
+        for mi in sorted(magicint2version):
+            if mi not in have and 0 <= mi < 65536:
+                out["table/%d" % mi] = dict(base, _magic=mi, _version=None, _escape_only=True)
+    except Exception:
+        pass
+    # the other two ways to the code reader
+    for k in ("3.8/3413", "2.7/62211"):
+        if k in out:
+            out[k + "/fast_load"] = dict(out[k], fast_load=True)
+            out[k + "/no-code"] = dict(out[k], get_code=False)
+    return out
+
+
+def escape_post(result, _engine):
+    from pyvc.engine import Opaque
+    cfg = _engine.entry_cfg
+    if cfg["_magic"] == 62135:
+        return [("dropbox-result-is-the-decoder's", isinstance(result, Opaque))]
+    if cfg.get("_refused"):
+        return [("unsupported magic must be refused", False)]
+    if cfg.get("_escape_only"):
+        return [("seven-tuple-or-decoder's", isinstance(result, Opaque) or (isinstance(result, tuple) and len(result) == 7))]
+    return [("seven-tuple", isinstance(result, tuple) and len(result) == 7)]
+
+
+contract(
+    "xdis.load:load_module_from_file_object", name="xdis.load:load_module_from_file_object/escape",
+    configs=escape_configs,
+    params={"fp": PycFile()}, examples={"fp": gen_pyc},
+    raises={ImportError: lambda _old_fp: Len(_old_fp.data) >= 50},
+    ensures=escape_post,
+)
+ALL_CONTRACTS = CONTRACTS + [EXT_LOAD_CODE, EXT_MARSH_LOAD, EXT_MARSHAL_LOADS, EXT_DROPBOX]
 c.externals = [EXT_LOAD_CODE, EXT_MARSH_LOAD, EXT_MARSHAL_LOADS]
